@@ -352,9 +352,14 @@ func (e EncSpec) Values(ids []int) interface{} {
 		}
 		return r
 	case "Int":
+		// values with bit 31 set and differing upper words, and negative ones
 		r := make([]int, n)
 		for i, x := range ids {
-			r[i] = x*0x01010101 - 9
+			v := int64(x)*0x0101010180 + 0x80000000
+			if x%3 == 2 {
+				v = -v
+			}
+			r[i] = int(v)
 		}
 		return r
 	case "U16":
@@ -484,7 +489,16 @@ func Build(c *Case) (b *Built, panicked interface{}) {
 			e := b.Encoder.Encode(v)
 			e = append([]byte{}, e...)
 			b.Encoded = append(b.Encoded, e)
-			_, d := b.Encoder.Decode(e)
+			// expected value = the value that was supplied.  Only Dummy is lossy by
+			// design (it stores nothing and decodes to nil); Bytes returns a slice of
+			// the stored bytes, compared by content.
+			var d interface{} = v
+			if c.Enc == "Dummy" {
+				_, d = b.Encoder.Decode(e)
+			}
+			if bs, ok := v.([]byte); ok {
+				d = append([]byte{}, bs...)
+			}
 			b.Decoded = append(b.Decoded, d)
 		}
 	}
@@ -520,7 +534,7 @@ func Build(c *Case) (b *Built, panicked interface{}) {
 }
 
 // WantVal is the value Get must report for input key i (which must be retained,
-// or for RangeGet any key): Decode(Encode(v_i)); nil when no values were given
+// or for RangeGet any key): the supplied v_i; nil when no values were given
 // or when the value array is not materialised (all encodings empty).
 func (b *Built) WantVal(i int) interface{} {
 	if b.Decoded == nil || b.AllEmpty {
